@@ -129,6 +129,8 @@ class Ref:
         self.extern = extern  # callable(name, args, result_types, k) -> results, for external functions
         self.ncalls = 0
         self.loop_bound = loop_bound
+        self.taint = {}  # SSAValue -> set of {"nsz", "free"}
+        self.ret_taint = []
 
     # ---- helpers
     def _need(self, cond):
@@ -188,19 +190,73 @@ class Ref:
             for a, v in zip(block.args, args):
                 env[a] = v
             nxt = None
+            pending = getattr(self, "_pending_taint", None)
+            if pending:
+                for a, tset in zip(block.args, pending):
+                    if tset:
+                        self.taint[a] = set(tset) | self.taint.get(a, set())
+            self._pending_taint = None
             for op in block.ops:
                 r = self.step(op, env, depth)
                 if r is None:
                     continue
                 kind, payload = r
                 if kind == "return":
+                    self.ret_taint = [set(self.taint.get(v, ())) for v in op.operands]
                     return payload
                 if kind == "branch":
                     nxt = payload
+                    self._pending_taint = self._branch_taints(op, payload[0])
                     break
             if nxt is None:
                 raise RefUnsupported("block without terminator")
             block, args = nxt
+
+    def _branch_taints(self, op, target):
+        from xdsl.dialects import cf as _cf
+
+        if isinstance(op, _cf.BranchOp):
+            return [self.taint.get(v, set()) for v in op.arguments]
+        if isinstance(op, _cf.ConditionalBranchOp):
+            vals = op.then_arguments if target is op.then_block else op.else_arguments
+            return [self.taint.get(v, set()) for v in vals]
+        return None
+
+    def _flags(self, op):
+        fm = getattr(op, "fastmath", None)
+        if fm is None:
+            return set()
+        return {str(f.value) if hasattr(f, "value") else str(f) for f in fm.data}
+
+    def _float_taint(self, op, result, operands, terms, res_term):
+        """fast-math: nnan/ninf make NaN/inf operands or results poison; nsz frees the sign of a zero result;
+        reassoc/contract/afn/arcp leave the result unconstrained. Taints propagate to users."""
+        flags = self._flags(op)
+        t = set()
+        for o in operands:
+            ot = self.taint.get(o, set())
+            if "free" in ot or "nsz" in ot:
+                t.add("free")
+        if "nnan" in flags:
+            for x in list(terms) + ([res_term] if z3.is_fp(res_term) else []):
+                if z3.is_fp(x):
+                    self._need(z3.Not(z3.fpIsNaN(x)))
+        if "ninf" in flags:
+            for x in list(terms) + ([res_term] if z3.is_fp(res_term) else []):
+                if z3.is_fp(x):
+                    self._need(z3.Not(z3.fpIsInf(x)))
+        if "nsz" in flags:
+            t.add("nsz")
+        if flags & {"reassoc", "contract", "afn", "arcp"}:
+            t.add("free")
+        if t:
+            self.taint[result] = t | self.taint.get(result, set())
+
+    def _propagate(self, op):
+        """generic taint propagation for non-float ops: a tainted operand makes every result unconstrained"""
+        if any(self.taint.get(o) for o in op.operands):
+            for r in op.results:
+                self.taint[r] = {"free"} | self.taint.get(r, set())
 
     def val(self, env, v):
         if v not in env:
@@ -228,6 +284,12 @@ class Ref:
 
     # ---- one op
     def step(self, op, env, depth):
+        r = self._step(op, env, depth)
+        if r is None and self.taint and not isinstance(op, (arith.SelectOp, arith.CmpfOp, arith.NegfOp)) and op.name not in refsem.FLOAT_BIN:
+            self._propagate(op)
+        return r
+
+    def _step(self, op, env, depth):
         n = op.name
         V = lambda v: self.val(env, v)  # noqa: E731
         if isinstance(op, arith.ConstantOp):
@@ -240,22 +302,70 @@ class Ref:
             # overflow flags make the result poison on overflow
             ovf = getattr(op, "overflow_flags", None)
             self._need(d)
+            if ovf is not None:
+                fl = {str(getattr(f, "value", f)) for f in ovf.data}
+                a, b = V(op.operands[0]), V(op.operands[1])
+                chk = {"arith.addi": (z3.BVAddNoOverflow, z3.BVAddNoUnderflow), "arith.subi": (z3.BVSubNoOverflow, z3.BVSubNoUnderflow),
+                       "arith.muli": (z3.BVMulNoOverflow, z3.BVMulNoUnderflow)}.get(n)
+                if fl - {"none"}:
+                    if chk is None:
+                        raise RefUnsupported(f"overflow flags on {n}")
+                    if "nsw" in fl:
+                        if n == "arith.subi":
+                            self._need(z3.And(chk[0](a, b), chk[1](a, b, True)))
+                        else:
+                            self._need(z3.And(chk[0](a, b, True), chk[1](a, b)))
+                    if "nuw" in fl:
+                        if n == "arith.subi":
+                            self._need(z3.UGE(a, b))
+                        else:
+                            self._need(chk[0](a, b, False))
             env[op.results[0]] = r
             return None
         if isinstance(op, arith.CmpiOp):
             env[op.result] = refsem.b2bv(refsem.CMPI[op.predicate.value.data](V(op.lhs), V(op.rhs)))
             return None
         if isinstance(op, arith.CmpfOp):
-            env[op.result] = refsem.b2bv(refsem.CMPF[op.predicate.value.data](V(op.lhs), V(op.rhs)))
+            x, y = V(op.lhs), V(op.rhs)
+            env[op.result] = refsem.b2bv(refsem.CMPF[op.predicate.value.data](x, y))
+            flags = self._flags(op)
+            if "nnan" in flags:
+                self._need(z3.And(z3.Not(z3.fpIsNaN(x)), z3.Not(z3.fpIsNaN(y))))
+            if "ninf" in flags:
+                self._need(z3.And(z3.Not(z3.fpIsInf(x)), z3.Not(z3.fpIsInf(y))))
+            t = set()
+            if "nsz" in flags:
+                t.add("cmp_nsz")  # a select steered by this compare has an insignificant zero sign
+            if any("free" in self.taint.get(o, ()) or "nsz" in self.taint.get(o, ()) for o in op.operands):
+                t.add("free")
+            if t:
+                self.taint[op.result] = t
             return None
         if isinstance(op, arith.SelectOp):
             env[op.result] = z3.If(V(op.cond) == 1, V(op.lhs), V(op.rhs))
+            t = set()
+            ct = self.taint.get(op.cond, set())
+            if "free" in ct:
+                t.add("free")
+            if "cmp_nsz" in ct:
+                t.add("nsz")
+            for o in (op.lhs, op.rhs):
+                t |= {x for x in self.taint.get(o, set()) if x in ("free", "nsz")}
+            if t:
+                self.taint[op.result] = t
             return None
         if n in refsem.FLOAT_BIN:
-            env[op.results[0]] = refsem.FLOAT_BIN[n](V(op.operands[0]), V(op.operands[1]))
+            x, y = V(op.operands[0]), V(op.operands[1])
+            r = refsem.FLOAT_BIN[n](x, y)
+            env[op.results[0]] = r
+            self._float_taint(op, op.results[0], op.operands, [x, y], r)
+            if n in refsem.ZERO_SIGN_FREE:
+                self.taint[op.results[0]] = {"nsz"} | self.taint.get(op.results[0], set())
             return None
         if isinstance(op, arith.NegfOp):
-            env[op.results[0]] = z3.fpNeg(V(op.operands[0]))
+            x = V(op.operands[0])
+            env[op.results[0]] = z3.fpNeg(x)
+            self._float_taint(op, op.results[0], op.operands, [x], env[op.results[0]])
             return None
         if isinstance(op, arith.ExtSIOp):
             a = V(op.input)
@@ -303,6 +413,7 @@ class Ref:
             return None
         if isinstance(op, func.ReturnOp):
             return ("return", [V(v) for v in op.arguments])
+
         if isinstance(op, func.CallOp):
             callee = self.lookup(op.callee.string_value())
             res = self.call(callee, [V(v) for v in op.arguments], depth + 1)
